@@ -200,6 +200,31 @@ def run(ctx):
                         bool(np.all((np.abs(gv - want_gcv) < 1e-7) | (np.isnan(gv) & np.isnan(want_gcv))))
                 ctx.counters['chk:identity'] += 1
                 ctx.check(ok, 'identity:gcv', cid, container=cname, dtype=str(s.dtype), gstd=g, gcv=v['gcv'].value)
+    # ---- a large sample: more than 10^5 events, one channel drifting along the event axis (block-wise or streamed
+    # reductions engage only here, and drop between-block terms exactly when the channel drifts)
+    for cid, rng in ctx.cases([('big', i) for i in range(1 if ctx.tier == 'quick' else 8)]):
+        mon.cid = cid
+        N = int(rng.choice([100001, 120001, 180000]))
+        drift = np.sort(rng.integers(1, 60000, size=N))
+        noise = rng.integers(1, 4096, size=N)
+        if rng.random() < 0.5:
+            spec = dict(version='FCS3.0', datatype='I', widths=[16, 16], events=[[int(a), int(b)] for a, b in zip(drift, noise)],
+                        ranges=[65536, 4096], names=['Time', 'FL1'], byteord=str(rng.choice(['4,3,2,1', '1,2,3,4'])), pne=['0,0', '4,1'], png=[None, None])
+        else:
+            spec = dict(version='FCS3.0', datatype='D', widths=[64, 64], events=[[float(a) + 0.25, float(b) * 1.5] for a, b in zip(drift, noise)],
+                        ranges=[262144, 262144], names=['Time', 'FL1'], byteord='1,2,3,4', pne=['0,0', '0,0'], png=[None, None])
+        s = zoo.write_and_load(F, spec, path)
+        plain = np.array(np.asarray(s))
+        for st in NAMES:
+            fn = getattr(F.stats, st)
+            for ch, pos in ((None, None), ('Time', 0), ([1, 0], [1, 0])):
+                with np.errstate(all='ignore'):
+                    o, oa = core.attempt(fn, s, ch), core.attempt(fn, plain, pos)       # judged by the in-situ oracle
+                ctx.counters['chk:container'] += 1
+                if ctx.check(not o.raised and not oa.raised, 'stats:valid-call-refused:' + st, cid, N=N,
+                             exc=core.exc_str(o.exc or oa.exc) if (o.raised or oa.raised) else None):
+                    ctx.check(close(o.value, oa.value, 1e-12), 'container:array-vs-sample', cid, stat=st, N=N)
+        ctx.case_done(class_key=('big-sample', spec['datatype']), nontrivial=True, distinct_key=core.digest(cid))
     # the repository's own tests as a workload under the same monitors (their assertions are not the oracle)
     from rv import suite_workload
     suite_workload.run_repo_suite(ctx, mon, modules=('test_stats.py',))
